@@ -163,8 +163,10 @@ func famC05() []appFamily {
 			h.mtHop(o, 1, 2, v, id, 601, 0, h.addr(0, 2), "") // holder, one unit more than held, back
 			h.mtHop(o, 1, 3, v, id, 1, 2, h.addr(2, 1), "")   // non-holder, onwards
 			h.mtHop(o, 1, 2, v, id, 601, 2, h.addr(2, 1), "") // holder, more than held, onwards
-			h.mtHop(o, 1, 2, v, id, 200, 2, h.addr(2, 1), "") // holder: B -> C
+			h.mtHop(o, 1, 2, v, id, 150, 2, "bad-receiver", "") // forwarded voucher refused on C: the refund on B unlocks from escrow, it must not mint
+			h.mtHop(o, 1, 2, v, id, 200, 2, h.addr(2, 1), "")   // holder: B -> C
 			v2 := vclass("MT", cls, A, B, C)
+			h.mtHop(o, 2, 1, v2, id, 20, 1, " ", "") // returning voucher refused on B: the refund on C mints again
 			h.mtHop(o, 2, 2, v2, id, 1, 1, h.addr(1, 1), "")   // non-holder on C, back
 			h.mtHop(o, 2, 1, v2, id, 201, 1, h.addr(1, 1), "") // holder, more than held
 			h.mtHop(o, 2, 1, v2, id, 200, 1, h.addr(1, 3), "") // holder: everything back to B (another user)
